@@ -150,14 +150,14 @@ theorem nonempty_prefix_drop_lt {p s : List α} {i : Nat} (hp : p ≠ []) (h : p
 
 theorem indexCore_index (s p : List α) (start : Option Int) :
     indexCore false s p start =
-      if indexBoundary false s.length start > (s.length : Int) ∨ indexBoundary false s.length start ≤ 0 then 0
+      if indexBoundary false s.length start ≤ 0 ∨ indexBoundary false s.length start > (s.length : Int) + 1 then 0
       else match find (s.drop ((indexBoundary false s.length start).toNat - 1)) p with
         | some i => (((indexBoundary false s.length start).toNat - 1 + i : Nat) : Int) + 1
         | none => 0 := rfl
 
 theorem indexCore_rindex (s p : List α) (start : Option Int) :
     indexCore true s p start =
-      if indexBoundary true s.length start > (s.length : Int) ∨ indexBoundary true s.length start ≤ 0 then 0
+      if indexBoundary true s.length start ≤ 0 ∨ indexBoundary true s.length start > (s.length : Int) + 0 then 0
       else match rfind (s.take (indexBoundary true s.length start).toNat) p with
         | some i => (i : Int) + 1
         | none => 0 := rfl
@@ -852,5 +852,110 @@ theorem asciiUpper_idem (b : UInt8) : asciiUpper (asciiUpper b) = asciiUpper b :
       simp only [UInt8.toNat_ofNat']; omega
     rw [if_pos h, if_neg (by rw [e]; omega)]
   · rw [if_neg h, if_neg h]
+
+theorem compactAux_filter (isSp : α → Bool) : ∀ (l : List α) (st fbs : Bool),
+    (compactAux isSp st fbs l).1.filter (fun x => !isSp x) = l.filter (fun x => !isSp x) := by
+  intro l
+  induction l with
+  | nil => intro st fbs; cases st <;> simp [compactAux]
+  | cons c r ih =>
+    intro st fbs
+    cases st with
+    | false =>
+      simp only [compactAux]
+      by_cases hc : isSp c = true
+      · simp [hc, ih]
+      · have hc' : isSp c = false := by simpa using hc
+        simp [hc', ih]
+    | true =>
+      simp only [compactAux]
+      by_cases hc : isSp c = true
+      · cases fbs <;> simp [hc, ih]
+      · have hc' : isSp c = false := by simpa using hc
+        simp [hc', ih]
+
+/-- when the machine ends with followed_by_space set, the last character written is that space (or nothing
+    was written and the flag was already set on entry); state 0 is only ever entered with the flag clear -/
+theorem compactAux_flag (isSp : α → Bool) : ∀ (l : List α) (st fbs : Bool), (st = false → fbs = false) →
+    (compactAux isSp st fbs l).2 = true →
+      ((compactAux isSp st fbs l).1 = [] ∧ fbs = true) ∨
+      ∃ o c, (compactAux isSp st fbs l).1 = o ++ [c] ∧ isSp c = true := by
+  intro l
+  induction l with
+  | nil => intro st fbs _ h; cases st <;> simp_all [compactAux]
+  | cons c r ih =>
+    intro st fbs hinv h
+    cases st with
+    | false =>
+      have hf : fbs = false := hinv rfl
+      subst hf
+      simp only [compactAux] at h ⊢
+      by_cases hc : isSp c = true
+      · simp only [hc, if_true] at h ⊢
+        exact ih false false (fun _ => rfl) h
+      · have hc' : isSp c = false := by simpa using hc
+        simp only [hc', Bool.false_eq_true, if_false] at h ⊢
+        right
+        rcases ih true false (by simp) h with ⟨_, h2⟩ | ⟨o, c', h1, h2⟩
+        · simp at h2
+        · exact ⟨c :: o, c', by rw [h1]; rfl, h2⟩
+    | true =>
+      simp only [compactAux] at h ⊢
+      by_cases hc : isSp c = true
+      · cases fbs with
+        | true =>
+          simp only [hc, if_true] at h ⊢
+          rcases ih true true (by simp) h with ⟨h1, _⟩ | ⟨o, c', h1, h2⟩
+          · left; exact ⟨h1, trivial⟩
+          · right; exact ⟨o, c', h1, h2⟩
+        | false =>
+          simp only [hc, if_true, Bool.false_eq_true, if_false] at h ⊢
+          right
+          rcases ih true true (by simp) h with ⟨h1, _⟩ | ⟨o, c', h1, h2⟩
+          · exact ⟨[], c, by rw [h1]; rfl, hc⟩
+          · exact ⟨c :: o, c', by rw [h1]; rfl, h2⟩
+      · have hc' : isSp c = false := by simpa using hc
+        simp only [hc', Bool.false_eq_true, if_false] at h ⊢
+        right
+        rcases ih true false (by simp) h with ⟨_, h2⟩ | ⟨o, c', h1, h2⟩
+        · simp at h2
+        · exact ⟨c :: o, c', by rw [h1]; rfl, h2⟩
+
+theorem trimRight_append (isSp : α → Bool) (l : List α) :
+    ∃ b, l = trimRight isSp l ++ b ∧ ∀ x ∈ b, isSp x = true := by
+  unfold trimRight
+  refine ⟨(l.reverse.takeWhile isSp).reverse, ?_, ?_⟩
+  · have := List.takeWhile_append_dropWhile (p := isSp) (l := l.reverse)
+    have h2 := congrArg List.reverse this
+    simp only [List.reverse_append, List.reverse_reverse] at h2
+    exact h2.symm
+  · intro x hx
+    exact mem_takeWhile_true isSp l.reverse x (by simpa using hx)
+
+theorem trimRight_last (isSp : α → Bool) (l : List α) :
+    ∀ x, (trimRight isSp l).getLast? = some x → isSp x = false := by
+  intro x hx
+  unfold trimRight at hx
+  rw [List.getLast?_reverse] at hx
+  cases hd : l.reverse.dropWhile isSp with
+  | nil => rw [hd] at hx; simp at hx
+  | cons a r =>
+    rw [hd] at hx
+    simp only [List.head?_cons, Option.some.injEq] at hx
+    subst hx
+    exact dropWhile_head_false isSp l.reverse a r hd
+
+/-- a small concrete environment for non-vacuity examples: Latin-1 as the "codec", no regex ever matches -/
+def toyEnv : Env where
+  enc := fun s => s.map fun c => UInt8.ofNat c.toNat
+  dec := fun b => b.map fun x => Char.ofNat x.toNat
+  fmtFlt := fun _ _ => []
+  compile := fun _ => ⟨⟨fun _ _ => none, by intro s k p l h; simp at h⟩, ⟨fun _ _ => none, by intro s k p l h; simp at h⟩⟩
+  lowerC := id
+  upperC := id
+  lowerB := asciiLower
+  upperB := asciiUpper
+  spaceC := fun c => c == ' '
+  spaceB := fun b => b == 32
 
 end Hawk.StrFn
